@@ -51,6 +51,15 @@ CLAIMED = {
  "C11": dict(
    text="Proof under R-sched (the current OS thread is havocked before every system call unless the goroutine is locked): NoNewPrivs requested => at the seccomp call the bit is set on the installing thread (assert nnp_before_install), hence an unprivileged valid load succeeds; not requested => no prctl at all and the bit map is unchanged; not requested, unprivileged, bit clear => error and nothing attached. Deferred UnlockOSThread is executed by the symbolic executor at every return.",
    note=KNOTE+" Whether the Go scheduler really migrates between the calls is not decided (R-sched over-approximates all schedules).", technique=TECH+"; ghost thread-affinity state", ref="7 C11"),
+ "C15": dict(
+   text="Proof over a ghost trace of cmd/sandbox main: at the only process creation (cmd.Run) the policy file was parsed without error, LoadFilter returned nil for a filter built from exactly the parsed policy with the thread-sync flag (hence, by LoadFilter's verified contract, attached to all threads), and no earlier step failed; every failure path reaches os.Exit with a non-zero status without passing cmd.Run (os.Exit is modelled as non-returning with precondition 'failed => code != 0'); *policy is only dereferenced when non-nil.",
+   note="Trusted: go-ucfg loader contract (error for missing/malformed file, cannot set unexported fields), os.Exit never returns, exec.Cmd.Run starts the target; that the exec'ed image inherits the filter and observes the policy's decisions is the kernel axiom K-exec plus C01-C05/C08 - not decided here.", technique=TECH+"; ghost trace", ref="7 C15"),
+ "C17": dict(
+   text="Proof in a ghost file-system model (crash may occur after any effect; buffered writers may hand any prefix to the file at any time; the disassembler may fail after any prefix of its output): crash invariant CI 'a cache file that starts with this binary's hash is the complete dump' is asserted automatically after every callee that can change the cache file and at every return of doObjdump/writeObjdump, error returns included; the early 'use cache' return is only taken when the first 64 bytes equal the hash, hence (with CI) the reused file is complete; a nil return means the cache file is the complete dump.",
+   note="Trusted: spec/fs.spec (os.Create truncates, os.Rename is atomic, bufio may flush any prefix, exec.Cmd.Run writes a prefix of the tool's output and returns nil only for all of it), sha256 collision freedom, single profiler process (no concurrent runs), CI at entry as induction hypothesis over the history of runs.", technique=TECH+"; ghost file system with crash points", ref="7 C17"),
+ "C18": dict(
+   text="Proof: filterBlacklist returns exactly the elements not black-listed (order kept, no duplicates introduced), addWhitelist returns a duplicate-free list whose set is syscalls plus the allow-list names valid for the architecture (three loops incl. two map ranges with visited-set invariants), and in main the assertion at the point of output: names is sorted, duplicate free and its set equals (found - blacklisted) + valid allowed names, for all discovered lists and flag values; writeProfileConfig marshals Policy{errno, [{allow, names}]} (asserted on the value passed to yaml.Marshal), whose meaning is given by C01.",
+   note="Trusted: contracts of getBinaryArch/hashBinary/openOutput/writeGoTemplate/writeDebugYAML (assumed, bodies not verified), sort.Strings (sorted permutation), yaml.Marshal / text/template output text (library), injectivity of the syscall tables (C12). That the YAML text reads back to the same policy is C14.", technique=TECH, ref="7 C18"),
 }
 NA_REASON = "check not built yet (work in progress; DESIGN.md section 7 describes the planned contracts)"
 
